@@ -4,25 +4,25 @@ import json, subprocess, sys
 CHECKS = {
  # id: (level, technique, text, note, design_ref)
  "C01": ("exploration", "bounded-exhaustive enumeration of constraint-system call sequences (program space) on the real prover/verifier",
-         "Every call sequence up to the depth bound, every size-family member with each capacity pair and every value template x VAL^k is proved and verified on the real code; a satisfied system must yield Ok/Ok.",
+         "Every call sequence up to the depth bound over a 12-letter alphabet per phase (incl. the empty linear combination and bare wire constraints), hand-picked degenerate programs, every size-family member with each capacity pair, circuits of 130-257 gates and every value template x VAL^k is proved and verified on the real code; a satisfied system must yield Ok/Ok.",
          "values limited to the VAL alphabet; depth bounded; arkworks and Merlin trusted", "4 C01"),
- "C02": ("exploration", "bounded-exhaustive enumeration of violation sites (witness input, constraint constant, gate wire via hook H1) over the program space, reference-model oracle",
-         "For every program of the bounded space and every violation site x delta the real prover is run on the bad assignment and the real verifier must reject whenever the reference constraint system reports a violated constraint or gate.",
+ "C02": ("exploration", "bounded-exhaustive enumeration of violation sites (witness input, constraint constant, gate wires singly and in multi-wire patterns via hook H1) over the program space, reference-model oracle",
+         "For every program of the bounded space and every violation site (each witness input, each constraint constant by fixed deltas and by amounts derived from the constraint's own constant terms, each gate wire and seven multi-wire patterns per gate through hook H1) the real prover is run on the bad assignment and the real verifier must reject whenever the reference constraint system reports a violated constraint or gate.",
          "decides proofs emitted by the real proving code for bad assignments (not arbitrary adversaries); coincidental cancellation with probability ~1/|F| treated as impossible", "4 C02"),
- "C03": ("exploration", "deviation-bounded exhaustive enumeration (depth 0, 1 and, on the smallest bases, 2) of proof alterations, each judged by the real verifier and by an independent un-batched reference verifier under the recorded challenges",
-         "For every base proof (honest and honest-from-bad-witness) and every deviation of the algebraic alphabet the real verdict must equal the conjunction of (a) non-identity, (b) the committed evaluation relation and (c) the inner-product relation evaluated with explicit round-by-round folding.",
+ "C03": ("exploration", "deviation-bounded exhaustive enumeration of proof alterations (post-hoc depth 0-2, challenge-weighted pairs, and single deviations during the run of an independent reference prover), each judged by the real verifier and by an independent un-batched reference verifier under the recorded challenges",
+         "For every base proof (honest and honest-from-bad-witness), every post-hoc deviation of the algebraic alphabet (depth 1, depth 2 on the smallest bases, challenge-weighted two-field trades) and every single deviation made DURING a run of an independent reference prover, the real verdict must equal the conjunction of (a) non-identity, (b) the committed evaluation relation and (c) the inner-product relation evaluated with explicit round-by-round folding.",
          "r-weighted batching differs from the separate relations only with probability ~1/|F|; challenges taken from the recorded run", "4 C03"),
  "C04": ("exploration", "deviation-bounded exhaustive enumeration: every single-bit flip and every single algebraic alteration of accepted base proofs, run through the real decoder and verifier",
          "For each accepted base proof (k = 0..3 rounds, one- and two-phase) every bit flip of the encoding, every single-field algebraic deviation, every same-type copy/swap, every round edit and trailing bytes must be rejected at decode or at verify, or decode to the identical proof object.",
          "bases and alphabets as listed in the evidence; 'identical object' = canonical re-encoding equals the original", "4 C04"),
  "C05": ("exploration", "deviation-bounded exhaustive enumeration: every single verifier-side statement/context deviation for every honest base of the program space",
-         "For every honest (program, proof) of the bounded program space, every single verifier-side deviation (commitments, constraint constants/coefficients, label, app data changed/removed/inserted at every position, Pedersen bases) is run on the real verifier; it must reject unless the reference model marks the deviation as one of the statement's own don't-cares.",
+         "For every honest (program, proof) of the bounded program space, every single verifier-side deviation (commitments incl. torsion-shifted and duplicated ones, constraint constants/coefficients, label, app data changed/removed/inserted at every position, Pedersen bases) is run on the real verifier; it must reject unless the reference model marks the deviation as one of the statement's own don't-cares.",
          "one deviation at a time; bases as listed in the evidence", "4 C05"),
  "C06": ("model_checking", "monitor automaton of the protocol's transcript order run over the recorded Merlin event trace of every program of the bounded program space (prover and verifier), plus role-synchrony and fork-discipline checks",
-         "Every program of the bounded space is run honestly under the recording Merlin; a monitor automaton with payloads computed from the program, commitments and decoded proof consumes each role's main-transcript events; the two roles' event sequences must be identical; forks only for the prover RNG and the verifier's final batching weight (taken after the last protocol operation); returned transcripts give the same follow-up challenge.",
+         "Every program of the bounded space is run honestly under the recording Merlin; a monitor automaton with payloads computed from the program, commitments and decoded proof consumes each role's main-transcript events; the two roles' event sequences must be identical; forks only for the prover RNG and the verifier's final batching weight (taken after the last protocol operation); returned transcripts give the same follow-up challenge; on proofs with one element replaced the verifier's transcript must carry the element it received.",
          "observation at the Merlin API through the additive recording patch; label strings are pinned by C18", "4 C06"),
  "C07": ("exploration", "exhaustive enumeration of all ordered batches up to a length bound over an instance pool with correlated forgeries, oracle = conjunction of individual real verifications",
-         "Every ordered batch (every length, position, size mix) over the pool is run through the real batch_verify and compared with the conjunction of the members' individual verdicts.",
+         "Every ordered batch (every length, position, size mix; pool includes gate-free invalid members and +d/-d forgeries) is run through the real batch_verify and compared with the conjunction of the members' individual verdicts.",
          "batch RNG is a seeded ChaCha; pool and length bound as listed in the evidence", "4 C07"),
  "C08": ("fault_enumeration", "exhaustive enumeration of malformed-input families (shape grid, identity/zero slots, all short strings, all prefixes, per-byte substitutions, length prefixes) executed in isolated child processes with a counting allocator",
          "Every member of the listed hostile-input families is decoded and, if it decodes, verified singly and in three batch arrangements; any unwind, process death or allocation above 8*len+64KiB during decoding is a violation.",
@@ -31,19 +31,19 @@ CHECKS = {
          "For every program the prover's RNG output is recovered from the recording; every commitment is opened as known part + one unused draw * B_blinding, masking vectors are recovered from the final inner-product scalars, published blinding scalars recomputed, every draw non-zero / distinct / used exactly once; RNG keying (blinding factors, >= 32 external bytes) observed on the builder; same randomness reproduces the proof, different randomness shares no non-fixed component.",
          "decides blinding structure, not indistinguishability; full opening only for padded size <= 4", "4 C09"),
  "C10": ("exploration", "exhaustive enumeration of vectors over a small alphabet for n <= 4 and structured vectors up to n = 128, each with every single deviation, against an explicit-folding reference using recorded challenges",
-         "Real create + real verify for every case (through the guarded re-export), every verdict compared with an explicit round-by-round folding of the generators under the challenges recorded from the real run; round count, designed identity rejection and must-reject deviations asserted.",
+         "Real create + real verify for every case (through the guarded re-export), every verdict compared with an explicit round-by-round folding of the generators under the challenges recorded from the real run; round count, designed identity rejection, must-reject deviations and every wrong claimed length asserted.",
          "scalar table {0,1,rho,dense}; challenge scalar derivation replicated from the recorded 32-byte outputs", "4 C10"),
  "C11": ("exploration", "exhaustive enumeration of prefixes and invalid slot contents for proofs of every circuit size in a bounded family",
          "For every proof of the size family and small program space: deterministic encoding, round trip, verdict preserved, exact length law, every strict prefix rejected, every scalar slot with a non-canonical value rejected, every point slot with an off-curve / non-canonical / small-order / out-of-subgroup point rejected.",
          "proof family as listed in the evidence", "4 C11"),
  "C12": ("model_checking", "explicit-state enumeration (stateright BFS) of capacity histories, each replayed on a real BulletproofGens and compared with direct construction; content checks on every generator",
-         "Every history of new/increase_capacity/serialize-deserialize up to the depth bound x parties 1..3 x 3 curves is executed on the implementation; every (n,m) view is compared with a directly constructed object; all generators are checked for order r, non-identity, pairwise distinctness and against SHA3 digests recorded from the reference revision.",
+         "Every history of new/increase_capacity/serialize-deserialize up to the depth bound x parties 1..3 x 3 curves is executed on the implementation; every (n,m) view is compared with a directly constructed object; all generators are checked for order r, non-identity, pairwise distinctness and against SHA3 digests recorded from the reference revision, including an instance with 300 (quick) / 65 540 (thorough) parties and capacity 66 000 (thorough).",
          "views beyond capacity/parties are out of contract; SHA3 and point encoding trusted for digests", "4 C12"),
  "C13": ("exploration", "complete grid enumeration over the value alphabet against a harness-side double-and-add reference",
          "Full (v,r) grid x 3 base pairs x 3 curves; all pairs of pairs for additivity; scalings; Prover::commit on every pair.",
          "group addition/doubling of arkworks trusted; values outside VAL not covered", "4 C13"),
  "C14": ("other", "finite obligations on the compiled constants plus bounded exhaustive enumerations (structured field set for mul_by_a, scalar-law alphabet pairs, all multiples of r up to the Hasse bound, all trial divisors and Miller-Rabin bases below stated bounds)",
-         "Constants cross-checked between source literals and compiled values; generator on curve; r*G = O; the only multiple of r in the Hasse interval is r (so the order is exactly r); no compositeness witness for q, r below the bounds; mul_by_a compared with COEFF_A*x on a structured set; scalar laws on all alphabet pairs.",
+         "Constants cross-checked between source literals and compiled values; generator on curve; r*G = O; the only multiple of r in the Hasse interval is r (so the order is exactly r); no compositeness witness for q, r below the bounds; mul_by_a compared with COEFF_A*x on a set structured in value space and in Montgomery-representation space; scalar laws on all alphabet pairs.",
          "mul_by_a is not compared on the whole field; primality is absence of a witness below the bound, not an unconditional proof; Hasse's theorem", "4 C14"),
  "C15": ("exploration", "exhaustive enumeration of expression trees up to depth 2 over all operator impls, oracle = recursive denotation; accept-at-value and reject-off-value probes through real prove/verify",
          "Every expression tree of the bounded grammar is built with the operator impl its operand types select; constrain(e - den(e)) must prove and verify, constrain(e - (den(e)+delta)) must be rejected.",
